@@ -25,7 +25,9 @@
     file position `p ≥ hdrSize` is `after[p - hdrSize]`;
   * voxel data are an opaque, non-empty byte string written at the data offset;
   * `np.array((rawsize, code), dtype=np.int32)` is a range check (`OverflowError` outside int32);
-  * `esize % 16 ≠ 0` only produces a warning in the real code and has no counterpart here.
+  * `esize % 16 ≠ 0` only produces a warning in the real code and has no counterpart here;
+  * the `vox_offset` FIELD is modelled with its precision: `Fmt.offRepr` (float32 rounding for NIfTI-1, exact
+    for the int64 field of NIfTI-2; which one is regenerated from the header dtype).
 -/
 import NibabelModel.Generated.C11
 namespace Nb.C11
@@ -148,12 +150,54 @@ structure Fmt where
   sizeofHdr : Nat    -- `sizeof_hdr`
   singleOff : Nat    -- `single_vox_offset`
   pairOff : Nat      -- `pair_vox_offset`
+  voxF32 : Bool      -- the `vox_offset` field of the header dtype is IEEE float32 (NIfTI-1) / an int64 (NIfTI-2)
   deriving Repr, DecidableEq
 
 def nifti1 : Fmt := ⟨Nb.Gen.C11.nifti1_hdr_itemsize, Nb.Gen.C11.nifti1_sizeof_hdr,
-                     Nb.Gen.C11.nifti1_single_vox_offset, Nb.Gen.C11.nifti1_pair_vox_offset⟩
+                     Nb.Gen.C11.nifti1_single_vox_offset, Nb.Gen.C11.nifti1_pair_vox_offset,
+                     Nb.Gen.C11.nifti1_vox_offset_is_f32⟩
 def nifti2 : Fmt := ⟨Nb.Gen.C11.nifti2_hdr_itemsize, Nb.Gen.C11.nifti2_sizeof_hdr,
-                     Nb.Gen.C11.nifti2_single_vox_offset, Nb.Gen.C11.nifti2_pair_vox_offset⟩
+                     Nb.Gen.C11.nifti2_single_vox_offset, Nb.Gen.C11.nifti2_pair_vox_offset,
+                     Nb.Gen.C11.nifti2_vox_offset_is_f32⟩
+
+/-! ### what the `vox_offset` FIELD can hold
+
+  `hdr['vox_offset'] = v` stores `v` in the field's dtype.  NIfTI-1: float32 — a natural number is rounded to
+  the nearest value with a 24-bit significand, ties to even (IEEE 754 round-to-nearest-even; NumPy's
+  int → float32 conversion for values below 2^53, where the detour through float64 is exact; larger values are
+  outside the model).  NIfTI-2: int64 — exact
+  (values ≥ 2^63 are outside the model).  Everything that later uses the offset (`write_to`'s check, the seek of
+  `to_file_map`, `from_fileobj`'s `extsize`, `dataobj.offset`) sees the STORED value. -/
+
+/-- smallest `k` with `n / 2^k < 2^24` (`fuel ≥ log2 n` suffices; `fuel = n` is used) -/
+def f32exp : Nat → Nat → Nat
+  | 0, _ => 0
+  | fuel + 1, n => if n < 16777216 then 0 else f32exp fuel (n / 2) + 1
+
+/-- `int(np.float32(n))` for a natural number `n < 2^128`: with `P = 2^k` the spacing of float32 values in
+    the binade of `n`, the multiple of `P` below `n` or the next one (nearest, ties to the even multiple) -/
+def f32round (n : Nat) : Nat :=
+  let P := 2 ^ f32exp n n
+  let r := n % P
+  let s := n - r
+  if 2 * r > P ∨ (2 * r = P ∧ (n / P) % 2 = 1) then s + P else s
+
+/-- `int(np.nextafter(np.float32(s), np.float32(inf)))` for a float32 value `s ≥ 2^24`: one spacing up -/
+def f32next (s : Nat) : Nat := s + 2 ^ f32exp s s
+
+/-- the value read back from the `vox_offset` field after `n` was assigned to it -/
+def Fmt.offRepr (fmt : Fmt) (n : Nat) : Nat := if fmt.voxF32 then f32round n else n
+
+/-- `np.nextafter(stored, +inf)` in the field's dtype.  Only ever applied to a stored value that is below the
+    value assigned, which cannot happen for the exact int64 field (that branch is unreachable). -/
+def Fmt.offNext (fmt : Fmt) (s : Nat) : Nat := if fmt.voxF32 then f32next s else s + 1
+
+/-- what `Nifti1Header.write_to` leaves in the field when it fills in the minimum offset `m` itself
+    (after the `fix:` commit "keeps a float32 vox_offset at or above the minimum offset"): assign, read back,
+    and if the stored value fell below `m` move it one representable value up. -/
+def Fmt.offFill (fmt : Fmt) (m : Nat) : Nat :=
+  let s := fmt.offRepr m
+  if s < m then fmt.offNext s else s
 
 /-- a file that starts with a header block: value of the `vox_offset` field + every byte after the block -/
 structure HFile where
@@ -187,10 +231,26 @@ def extBlock (single : Bool) (e : Endian) (exts : List Ext) : Except Err (List N
     the header field -/
 def minOffset (fmt : Fmt) (exts : List Ext) : Int := (fmt.singleOff : Int) + totalSize exts
 
+/-- the rule on the total size alone.  `userOff` is what the caller assigned to `hdr['vox_offset']`; the rule
+    reads the field back (`fmt.offRepr userOff`), and when it fills the field in itself
+    (`self._structarr['vox_offset'] = min_vox_offset`) the value it leaves there is `fmt.offFill` of it. -/
+def chooseOffsetT (fmt : Fmt) (total : Int) (userOff : Nat) : Except Err Int :=
+  let u := fmt.offRepr userOff
+  let mn : Int := (fmt.singleOff : Int) + total
+  if u = 0 then .ok ((fmt.offFill mn.toNat : Nat) : Int)
+  else if (u : Int) < mn then .error .headerData
+  else .ok (u : Int)
+
+/-- the rule before that fix: the minimum is assigned to the field and whatever the field keeps is used -/
+def chooseOffsetTOrig (fmt : Fmt) (total : Int) (userOff : Nat) : Except Err Int :=
+  let u := fmt.offRepr userOff
+  let mn : Int := (fmt.singleOff : Int) + total
+  if u = 0 then .ok ((fmt.offRepr mn.toNat : Nat) : Int)
+  else if (u : Int) < mn then .error .headerData
+  else .ok (u : Int)
+
 def chooseOffset (fmt : Fmt) (exts : List Ext) (userOff : Nat) : Except Err Int :=
-  if userOff = 0 then .ok (minOffset fmt exts)
-  else if (userOff : Int) < minOffset fmt exts then .error .headerData
-  else .ok (userOff : Int)
+  chooseOffsetT fmt (totalSize exts) userOff
 
 /-- single-file save: `Nifti1Header.write_to` (offset rule, header block, extender, extensions) followed by
     `to_file_map`'s seek to the data offset and the data. -/
@@ -203,8 +263,24 @@ def writeSingle (fmt : Fmt) (e : Endian) (exts : List Ext) (userOff : Nat) (data
 
 /-- pair save: header file = block + (extender + extensions, only if there are any); image file = data at the
     user's offset (no minimum: `is_single` is false). -/
-def writePair (e : Endian) (exts : List Ext) (userOff : Nat) (data : List Nat) : Except Err PairFiles :=
-  (extBlock false e exts).map fun blk => ⟨⟨userOff, blk⟩, writeAt [] userOff data⟩
+def writePair (fmt : Fmt) (e : Endian) (exts : List Ext) (userOff : Nat) (data : List Nat) :
+    Except Err PairFiles :=
+  (extBlock false e exts).map fun blk => ⟨⟨fmt.offRepr userOff, blk⟩, writeAt [] (fmt.offRepr userOff) data⟩
+
+/-- Sizes only: what `Nifti1Header.write_to` does for extensions with content LENGTHS `lens` (no content
+    needed): (offset left in the `vox_offset` field, file position after the last extension record).  Same rule
+    (`chooseOffsetT`) as `writeSingle`; lets the correspondence reach totals far above 2^28 without
+    materialising the bytes.  A record whose esize does not fit int32 raises OverflowError after the offset
+    check. -/
+def headerWriteSizes (single : Bool) (fmt : Fmt) (lens : List Nat) (userOff : Nat) : Except Err (Nat × Nat) :=
+  let total : Int := (lens.map sizeOnDisk).sum
+  let ovf := lens.any fun n => ¬ inInt32 (sizeOnDisk n)
+  if single then
+    chooseOffsetT fmt total userOff >>= fun off =>
+    if ovf then .error .overflow else .ok (off.toNat, fmt.hdrSize + 4 + total.toNat)
+  else
+    if ovf then .error .overflow
+    else .ok (fmt.offRepr userOff, fmt.hdrSize + (if lens.isEmpty then 0 else 4 + total.toNat))
 
 /-- `_chk_offset` as seen by a loader (error level 40): a single-file magic with a non-zero offset below
     `single_vox_offset` is refused -/
